@@ -63,7 +63,7 @@ def plan_st(draw, tier, ctx=None):
     nj = 1 if npn == "TreeBandit" else draw(st.sampled_from([1, 1, 1, 2, 3, -1]))
     cfg = {"arms": arms, "lp": lp, "np": npd, "seed": draw(st.integers(0, 2 ** 20)), "n_jobs": nj,
            "backend": "threading" if nj != 1 else None, "arm_kind": kind}
-    fam = draw(st.sampled_from(["S", "Sint", "B"]))
+    fam = draw(st.sampled_from(["S", "Sint", "B", "Bool"]))
     h = gen.History(draw, cfg, reward_family="B" if late else fam,
                     grid=draw(st.sampled_from(["int", "small"])), max_rows=8)
     h.fit() if draw(st.integers(0, 3)) else h.partial_fit()
